@@ -123,6 +123,12 @@ func aslist(v interface{}) []interface{} {
 		return nil
 	case []interface{}:
 		return x
+	case []string:
+		out := make([]interface{}, len(x))
+		for i, e := range x {
+			out[i] = e
+		}
+		return out
 	}
 	return []interface{}{v}
 }
@@ -244,4 +250,10 @@ func trunc(s string, n int) string {
 		return s
 	}
 	return s[:n] + "…"
+}
+
+func mustUnmarshal(b []byte, v interface{}) {
+	if err := json.Unmarshal(b, v); err != nil {
+		panic("sim: bad expectation json: " + err.Error())
+	}
 }
